@@ -22,7 +22,9 @@ THOROUGH = [(6, 9), (10, 8), (12, 7), (9, 8)]
 
 def bounds(tier):
     return {"long-thin": "9..14(24) items over {1,2} B=5,15; {1,2,3} B=7,21; {2,3,5} B=10,30; {1,4,9} B=8,24; list + dict",
-            "big": "B in {2**32, 2**32+2, 3*2**31}, letters 1, 2, the integers next to B/3 and B/2, B, B+1; 1..5(6) items; list, dict(int names), array",
+            "fractional bin size": "B=7.5 (items 1..10) and B=10.5 (items 1..12), 1..5(6) items",
+            "huge": "B=2**60, items in {2**59, 2**60, 3*2**59, 2**61, 3*2**60}, 1..5 items",
+            "big": "B in {1e6, 2**32, 2**32+2, 3*2**31, 1e10}, letters 1, 2, the integers next to B/3 and B/2, B, B+1; 1..5(6) items; list, dict(int names), array",
             "planted-big": "B=12,13,9,101,99: every unordered pair of patterns x multiplicities (40,24)[,(100,20),(7,150)] plus floor(B/2) unit items",
             "scopes": [f"values 1..{B + 3}, 1..{N} items, binsize {B}, formats list + dict(str names) (+dict(int names), names+valueof up to 5 items)"
                        for B, N in (QUICK if tier == "quick" else THOROUGH)]}
@@ -40,10 +42,15 @@ def tasks(tier):
         for ch in scopes.chunk_multisets(alpha, lo, hi if tier != "quick" else min(hi, lo + 5), 200):
             for Bx in (B, 3 * B):
                 ts.append((f"long-B{Bx}", ch, Bx, ("list", "dict_str")))
-    for Bc in (2 ** 32, 2 ** 32 + 2, 3 * 2 ** 31):
-        letters = (1, 2, Bc // 3, Bc // 3 + 1, Bc // 2 - 1, Bc // 2, Bc // 2 + 1, Bc, Bc + 1)
-        for ch in scopes.chunk_multisets(letters, 1, 5 if tier == "quick" else 6, 400):
+    for Bc in scopes.BIG_BINSIZES:
+        for ch in scopes.chunk_multisets(scopes.threshold_letters(Bc), 1, 5 if tier == "quick" else 6, 400):
             ts.append(("big", ch, Bc, ("list", "dict_int", "array")))
+    # non-integer bin sizes with integer items, and items of magnitude 2**59..2**62 (sums still exact: multiples of 2**59)
+    for Bf, top in ((7.5, 10), (10.5, 12)):
+        for ch in scopes.chunk_multisets(range(1, top + 1), 1, 5 if tier == "quick" else 6, 400):
+            ts.append((f"fractional-B{Bf}", ch, Bf, ("list", "dict_str")))
+    for ch in scopes.chunk_multisets((2 ** 59, 2 ** 60, 3 * 2 ** 59, 2 ** 61, 3 * 2 ** 60), 1, 5, 200):
+        ts.append(("huge", ch, 2 ** 60, ("list", "dict_int")))
     from .c10 import PLANT_BIG
     for Bb, lettersb in PLANT_BIG:
         pats = spaces.partitions_of(Bb, lettersb, 4)
